@@ -26,6 +26,57 @@ ASSUMPTIONS = [
 TRUSTED = oracle.TRUSTED + ["more_itertools.peekable", "operator.methodcaller"]
 
 
+
+def _extends(prog, f, term):
+    """`W(X)` where the local function W hands back its argument, or a generator that first yields every pair X yields and
+    then more of its own: what the rules say about X's pairs holds for the result (nothing X yields is lost, reordered or
+    changed).  Returns X, or None when `term` is not of that shape."""
+    import ast
+
+    if not (term[0] == "call" and term[1][0] == "closure" and len(term[2]) == 1 and not term[3] and term[2][0][0] in ("closure", "ref")):
+        return None
+    w = P.nested_function(prog, f, term[1][1].rsplit(".", 1)[-1])
+    if w is None or len(w.params) != 1:
+        return None
+    inner = w.params[0]
+    gens = {n.name: n for n in ast.walk(w.node) if isinstance(n, ast.FunctionDef) and n is not w.node}
+    rets = [n for n in ast.walk(w.node) if isinstance(n, ast.Return) and not any(n in ast.walk(g) for g in gens.values())]
+    if not rets:
+        return None
+    for r in rets:
+        v = r.value
+        if isinstance(v, ast.Name) and v.id == inner:
+            continue
+        g = gens.get(v.id) if isinstance(v, ast.Name) else None
+        if g is None or len(g.args.args) != 1:
+            return None
+        gp = g.args.args[0].arg
+        passes_on = False
+        for loop in ast.walk(g):
+            if isinstance(loop, ast.For) and isinstance(loop.iter, ast.Call) and isinstance(loop.iter.func, ast.Name) and loop.iter.func.id == inner and [ast.unparse(a) for a in loop.iter.args] == [gp] and not loop.iter.keywords:
+                tgt = ast.unparse(loop.target)
+                if any(isinstance(y, ast.Yield) and y.value is not None and ast.unparse(y.value) in (tgt, f"({tgt})") for st in loop.body for y in ast.walk(st)) and not any(isinstance(st, (ast.If, ast.Break, ast.Continue, ast.Return)) for st in loop.body):
+                    # every pair of the inner iterator is yielded, as it is, before anything else
+                    first = next((st for st in g.body if not (isinstance(st, ast.Expr) and isinstance(st.value, ast.Constant))), None)
+                    pre = g.body[: g.body.index(loop)] if loop in g.body else None
+                    if pre is not None and not any(isinstance(y, (ast.Yield, ast.YieldFrom)) for st in pre for y in ast.walk(st)):
+                        passes_on = True
+                    del first
+        if not passes_on:
+            return None
+    return term[2][0]
+
+
+def _fi_paths(prog, f):
+    out = []
+    for p in P.splice_helpers(prog, P.paths_of(prog, f)):
+        if p.exit[0] == "return" and len(p.exit) > 1 and p.exit[1] is not None:
+            x = _extends(prog, f, p.exit[1])
+            if x is not None:
+                p = P.Path(list(p.events), (p.exit[0], x), dict(p.env))
+        out.append(p)
+    return out
+
 def serdes_functions(prog):
     return [f for q, f in sorted(prog.functions.items()) if q.startswith(C.SERDES + ".")]
 
@@ -179,7 +230,7 @@ def _source_kind(it):
 def r18_4(prog, rep):
     f = prog.function(f"{C.SERDES}._make_fields_iterator")
     comps = []
-    for p in P.splice_helpers(prog, P.paths_of(prog, f)):
+    for p in _fi_paths(prog, f):
         for tm in p.all_terms():
             comps += [s for s in T.walk(tm) if s[0] == "comp"]
     import ast as _ast
@@ -191,7 +242,7 @@ def r18_4(prog, rep):
                 for tm in p.all_terms():
                     comps += [s for s in T.walk(tm) if s[0] == "comp"]
     # ... and the module-level functions it hands out instead of closures (`return _itervars`, `partial(_iterfields, names)`)
-    for _p, r in P.returns(P.splice_helpers(prog, P.paths_of(prog, f))):
+    for _p, r in P.returns(_fi_paths(prog, f)):
         for x in T.walk(r):
             g = prog.functions.get(x[1]) if x[0] == "ref" else None
             if g is not None and g is not f and g.module is f.module:
@@ -243,14 +294,14 @@ def r18_10(prog, rep):
     string being one name."""
     f = prog.function(f"{C.SERDES}._make_fields_iterator")
     tp = ("param", f.params[0])
-    calls = [x for p in P.splice_helpers(prog, P.paths_of(prog, f)) for tm in p.all_terms() for x in T.walk(tm) if T.is_call_to(x, f"{C.INSP}.get_type_hints", f"{C.INSP}.cached_type_hints") and x[2][:1] == (tp,)]
+    calls = [x for p in _fi_paths(prog, f) for tm in p.all_terms() for x in T.walk(tm) if T.is_call_to(x, f"{C.INSP}.get_type_hints", f"{C.INSP}.cached_type_hints") and x[2][:1] == (tp,)]
     if calls:
         exhaustive = [c for c in calls if (dict(c[3]).get("exhaustive") or (c[2][1] if len(c[2]) > 1 else None)) != ("const", False)]
         rep.check(not exhaustive, "R18.10", f.qualname, f.loc, "attribute names are taken from the class's own hints (exhaustive=False), never from its constructor's parameters", "the fields iterator asks for the *exhaustive* hints: for a class without annotations these are the parameters of __init__, which are then read as attributes -- iteritems(Account('ann', 5)) raises AttributeError ('opening'), iteritems(argparse.Namespace(a=1)) raises on 'kwargs', and attributes that are no parameter are silently dropped", detail="hints-not-exhaustive")
     else:
         rep.held("R18.10", f.qualname, f.loc, "the fields iterator does not use inspection.get_type_hints", detail="hints-not-exhaustive", nontrivial=False)
     srcs = []
-    for p in P.splice_helpers(prog, P.paths_of(prog, f)):
+    for p in _fi_paths(prog, f):
         for e in p.events:
             if e[0] == "assign" and e[2][0] == "comp" and e[2][3] and _source_kind(e[2][3][0][0]) == "__slots__":
                 srcs.append(e[2])
@@ -281,7 +332,7 @@ def r18_7(prog, rep):
     f = prog.function(f"{C.SERDES}._make_fields_iterator")
     ok = True
     seen_slots = False
-    for p in P.splice_helpers(prog, P.paths_of(prog, f)):
+    for p in _fi_paths(prog, f):
         last = None
         for i, e in enumerate(p.events):
             if e[0] == "assign" and e[2][0] == "comp" and e[2][3]:
@@ -420,7 +471,7 @@ def r18_12(prog, rep, rule="R18.12"):
         return None
 
     shape_problems = []
-    for p in P.splice_helpers(prog, P.paths_of(prog, f)):
+    for p in _fi_paths(prog, f):
         if p.exit[0] != "return":
             continue
         last = None
@@ -454,7 +505,7 @@ def r18_9(prog, rep, rule="R18.9"):
         rep.undecided(rule, f"{C.SERDES}.get_items_iter", "", "field iterator factory not found")
         return
     hinted = []
-    for p in P.splice_helpers(prog, P.paths_of(prog, f)):
+    for p in _fi_paths(prog, f):
         for e in p.events:
             if e[0] == "assign" and e[2][0] == "comp":
                 c = e[2]
@@ -526,6 +577,69 @@ def r18_6(prog, rep):
         rep.check(not mut, "R18.6", f.qualname, f.loc, "does not mutate its argument", f"mutates its argument: {mut[:2]}")
 
 
+def fields_the_instance_answers_to(prog, rep, rule="R18.13"):
+    """For a class without public annotations the fields are what its instances hold (slots, instance dict) -- and what they
+    *answer to*: a constructor parameter exposed through a property over private state is a field (its value is needed to
+    build the object again), a declared slot that was never assigned is not (reading it raises AttributeError)."""
+    import ast
+
+    f = prog.functions.get("typelib.serdes._make_fields_iterator")
+    if f is None:
+        rep.undecided(rule, "typelib.serdes._make_fields_iterator", "", "anchor not found", detail="constructor-properties")
+        return
+    # (a) every strategy that is not driven by hints / dataclass fields is extended by the constructor's parameters the value has
+    wrapped, bare = 0, []
+    for p in P.splice_helpers(prog, P.paths_of(prog, f)):
+        if p.exit[0] != "return":
+            continue
+        atoms = T.derive_atoms(p.guards())
+        from_hints = any((not val) and a[0] == "not" and False for a, val in atoms)
+        del from_hints
+        # the path found no public hinted / dataclass names: the `not public_attribs` test over the hints comprehension was true
+        no_hints = any(e[0] == "assign" and e[2][0] == "comp" and e[2][3] and _source_kind(e[2][3][0][0]) == "__slots__" for e in p.events)
+        if not no_hints:
+            continue
+        r = p.exit[1]
+        x = _extends(prog, f, r)
+        ok = False
+        if x is not None:
+            w = P.nested_function(prog, f, r[1][1].rsplit(".", 1)[-1])
+            gens = [n for n in ast.walk(w.node) if isinstance(n, ast.FunctionDef) and n is not w.node]
+            for g in gens:
+                gp = g.args.args[0].arg if g.args.args else None
+                for loop in ast.walk(g):
+                    if isinstance(loop, ast.For) and isinstance(loop.target, ast.Name) and isinstance(loop.iter, ast.Name):
+                        v = loop.target.id
+                        guarded = any(isinstance(c, ast.Call) and isinstance(c.func, ast.Name) and c.func.id == "hasattr" and [ast.unparse(a) for a in c.args] == [gp, v] for st in loop.body for c in ast.walk(st))
+                        yields = any(isinstance(y, ast.Yield) and y.value is not None and isinstance(y.value, ast.Tuple) and len(y.value.elts) == 2 and ast.unparse(y.value.elts[0]) == v and ast.unparse(y.value.elts[1]) == f"getattr({gp}, {v})" for st in loop.body for y in ast.walk(st))
+                        # the names looped over come from the constructor's signature
+                        src = [n.value for n in ast.walk(f.node) if isinstance(n, (ast.Assign, ast.AnnAssign)) and any(isinstance(tg, ast.Name) and tg.id == loop.iter.id for tg in (n.targets if isinstance(n, ast.Assign) else [n.target])) and n.value is not None]
+                        from_sig = any(isinstance(c, ast.Call) and (prog.resolve_expr_name(f.module, c.func) or "").rsplit(".", 1)[-1] in ("safe_get_params", "signature", "cached_signature") for sv in src for c in ast.walk(sv))
+                        if guarded and yields and from_sig:
+                            ok = True
+        if ok:
+            wrapped += 1
+        else:
+            bare.append(T.show(r)[:60])
+    if wrapped or bare:
+        rep.check(not bare, rule, f.qualname, f.loc, f"the slots / instance-dict strategies are extended by the constructor parameters the value answers to ({wrapped} exit(s))", f"a class without public annotations is iterated from its __slots__ / instance dict alone ({sorted(set(bare))[:2]}): `class Account: def __init__(self, owner: str, balance: int): self._owner, self._balance = ...` with read-only properties `owner` / `balance` yields nothing, unmarshal(Account, Account('1', 5)) raises TypeError (missing arguments) or silently returns the defaults", detail="constructor-properties")
+    # (b) a declared slot is read only where the value has it
+    n_slot, unguarded = 0, 0
+    for name in ("_iterfields",):
+        g = P.nested_function(prog, f, name)
+        if g is None:
+            continue
+        for n in ast.walk(g.node):
+            if isinstance(n, (ast.GeneratorExp, ast.ListComp)) and isinstance(n.elt, ast.Tuple) and len(n.elt.elts) == 2 and isinstance(n.elt.elts[1], ast.Call) and ast.unparse(n.elt.elts[1].func) == "getattr":
+                n_slot += 1
+                v = ast.unparse(n.generators[0].target)
+                gp = g.node.args.args[0].arg
+                if not any(isinstance(c, ast.Call) and ast.unparse(c.func) == "hasattr" and [ast.unparse(a) for a in c.args] == [gp, v] for cond in n.generators[0].ifs for c in ast.walk(cond)) and len(n.elt.elts[1].args) < 3:
+                    unguarded += 1
+    if n_slot:
+        rep.check(not unguarded, rule, f.qualname, f.loc, "a declared slot is read only where the value has it", "every declared slot is read with getattr(val, name): a slot that was never assigned (`__slots__ = ('host', 'port', 'socket')`, socket set on connect) raises AttributeError in the middle of the iteration -- unmarshal(Connection, Connection('h', 80)) fails although the constructor needs host and port only", detail="slot-unset")
+
+
 def run(prog: Program, rep: Report, tier: str):
     rep.rule("R18.1", "no unguarded next()/peek() on a possibly empty iterator", floor=2)
     rep.rule("R18.2", "consumed-iterator typestate in the peek helper and iteritems", floor=4)
@@ -533,6 +647,8 @@ def run(prog: Program, rep: Report, tier: str):
     rep.rule("R18.4", "public-name filter on every attribute source", floor=4)
     rep.rule("R18.5", "itervalues projects the same strategy; strategy order and arms", floor=5)
     rep.rule("R18.6", "no mutation of the argument", floor=5)
+    rep.rule("R18.13", "a class without annotations is iterated by what its instances answer to", floor=1)
+    fields_the_instance_answers_to(prog, rep)
     rep.rule("R18.12", "names taken from __slots__ are complemented by the instance dict where there is one", floor=1)
     r18_12(prog, rep)
     rep.rule("R18.11", "member hints carry no Annotated wrapper (a wrapped ClassVar would be a field)", floor=1)
